@@ -139,7 +139,8 @@ Definition wake_ok (s : ms) (e : key * (Z * Z * Z)) : bool :=
   if negb (snap_alive sn) then true else
   let '(brs, bws, sts) := snap_sets sn in
   let sid := real_sid sid in
-  if Z.eqb kind K_READ || Z.eqb kind K_READ_TO_END then zmem sid brs
+  (* 19 = received_reset(): registers in blocked_readers like a read *)
+  if Z.eqb kind K_READ || Z.eqb kind K_READ_TO_END || Z.eqb kind 19 then zmem sid brs
   else if Z.eqb kind K_WRITE || Z.eqb kind K_WRITE_ALL then zmem sid bws
   else if Z.eqb kind K_STOPPED || Z.eqb kind 17 then zmem sid sts
   else true.
